@@ -162,6 +162,10 @@ trait Scal: EucRing + Txt where for<'x> &'x Self: EucRingOps<Self> {
     fn ord_forms_ok(_a: &Self, _b: &Self, _c: Ordering) -> bool { true }
     /// is the mathematical value representable in this type
     fn m_fits(_m: &Self::M) -> bool { true }
+    /// is a panic of `a op b` (op = None: the constructor / negation of `a`) explained by the DOCUMENTED fixed-width limitation
+    /// (known finding F8: an intermediate of the lcm-based algorithm itself leaves the machine range, or a part is T::MIN)?
+    /// Only such panics are reported under a `KNOWN?` clause; any other panic on a representable result is a fresh violation.
+    fn inherent_overflow(_op: Option<Op>, _a: &Self::M, _b: &Self::M) -> bool { false }
     /// canonical representative of a mathematical value, built WITHOUT the code under test where possible
     fn from_m(m: &Self::M) -> Option<Self>;
     /// canonical-form invariant demanded by the property (Ratio: den > 0, gcd = 1; FF: 0 <= rep < p)
@@ -494,7 +498,10 @@ fn near_limit_pair<R: Scal>(s: &mut Sink, at: &str, bt: &str) where for<'x> &'x 
             Some(v) => { check_val(s, "constructed value", &v, &m, &req); s.case(&req, &v.txt(), true); operands.push((v, m)); }
             None => {
                 s.count("nearlimit.ctor-panic");
-                if R::m_fits(&m) { known(s, &format!("KNOWN? {}: constructor panics (intermediate overflow) although the value is representable", tag), &req, &R::m_txt(&m)); }
+                if R::m_fits(&m) {
+                    if R::inherent_overflow(None, &m, &m) { known(s, &format!("KNOWN? {}: constructor panics (intermediate overflow) although the value is representable", tag), &req, &R::m_txt(&m)); }
+                    else { s.oracle(false, "the constructor returns the canonical representative of every representable value (no intermediate of the documented algorithm overflows here)", &req, &format!("panic; exact value {}", R::m_txt(&m))); }
+                }
                 return;
             }
         }
@@ -515,7 +522,8 @@ fn near_limit_pair<R: Scal>(s: &mut Sink, at: &str, bt: &str) where for<'x> &'x 
             (None, Some(e)) => {
                 if R::m_fits(&e) {
                     s.count("nearlimit.panic-representable");
-                    known(s, &format!("KNOWN? {} {}: panics (intermediate overflow) although the exact result is representable", tag, op.name()), &req, &R::m_txt(&e));
+                    if R::inherent_overflow(Some(op), &ma, &mb) { known(s, &format!("KNOWN? {} {}: panics (intermediate overflow) although the exact result is representable", tag, op.name()), &req, &R::m_txt(&e)); }
+                    else { s.oracle(false, "a op b agrees with the mathematical ring whenever the result is representable (no intermediate of the documented algorithm overflows here)", &req, &format!("panic; exact result {}", R::m_txt(&e))); }
                 } else { s.count("nearlimit.panic-unrepresentable"); }
             }
             (None, None) => { s.case(&req, "panic", true); }
@@ -526,7 +534,8 @@ fn near_limit_pair<R: Scal>(s: &mut Sink, at: &str, bt: &str) where for<'x> &'x 
     match apply_neg(s, &a, &req) {
         Some(v) => { check_val(s, "-a", &v, &e, &req); s.case(&req, &v.txt(), true); }
         None => if R::m_fits(&e) {
-            known(s, &format!("KNOWN? {} neg: panics (intermediate overflow) although the exact result is representable", tag), &req, &R::m_txt(&e));
+            if R::inherent_overflow(None, &ma, &ma) { known(s, &format!("KNOWN? {} neg: panics (intermediate overflow) although the exact result is representable", tag), &req, &R::m_txt(&e)); }
+            else { s.oracle(false, "-a agrees with the mathematical ring whenever the result is representable", &req, &format!("panic; exact result {}", R::m_txt(&e))); }
         }
     }
     if let Some(c) = guard(|| R::real_cmp(&a, &b)) {
@@ -663,6 +672,26 @@ macro_rules! impl_ratio {
             }
             fn m_neg(a: &QM) -> QM { (-&a.0, a.1.clone()) }
             fn m_eq(a: &QM, b: &QM) -> bool { &a.0 * &b.1 == &b.0 * &a.1 }
+            fn inherent_overflow(op: Option<Op>, a: &QM, b: &QM) -> bool {
+                let lo = if <$i as IntLike>::BITS == NO_CAP { return false } else { -(BigInt::one() << (<$i as IntLike>::BITS as usize - 1)) }; let hi = -&lo - BigInt::one();
+                let fits = |x: &BigInt| &lo <= x && x <= &hi;
+                let (ra, rb) = (q_reduce(a), q_reduce(b));
+                // a part equal to T::MIN: its negation / absolute value does not exist (sign normalisation, gcd, inv)
+                if [&a.0, &a.1, &b.0, &b.1, &ra.0, &ra.1, &rb.0, &rb.1].iter().any(|x| **x == lo) { return true; }
+                match op {
+                    Some(o @ (Op::Add | Op::Sub)) => {
+                        if ra.0.is_zero() || rb.0.is_zero() { return false; }
+                        let sg = |x: &BigInt, y: &BigInt| if o == Op::Add { x + y } else { x - y };
+                        if ra.1 == rb.1 { return !fits(&sg(&ra.0, &rb.0)); }
+                        // the documented algorithm: l = lcm(b, d); a·(l/b) ± (l/d)·c over l, then reduce
+                        let l = ra.1.lcm(&rb.1);
+                        let x = &ra.0 * (&l / &ra.1);
+                        let y = (&l / &rb.1) * &rb.0;
+                        !fits(&l) || !fits(&x) || !fits(&y) || !fits(&sg(&x, &y))
+                    }
+                    _ => false,
+                }
+            }
             fn m_cmp(a: &QM, b: &QM) -> Option<Ordering> {
                 let (a, b) = (q_reduce(a), q_reduce(b));
                 Some((&a.0 * &b.1).cmp(&(&b.0 * &a.1)))
@@ -865,7 +894,9 @@ fn nl_corpus(tag: &str) -> Vec<(&'static str, &'static str)> {
             ("9007199254740993/9007199254740992", "9007199254740992/9007199254740991"), ("1/9007199254740993", "1/9007199254740992"),
             ("4611686018427387904/3", "4611686018427387905/3"), ("9223372036854775807", "9223372036854775806"), ("1/9223372036854775807", "1/9223372036854775806"),
             ("9223372036854775807/2", "1/2"), ("3037000499/3037000500", "3037000500/3037000499"), ("4294967296/3", "3/4294967296"), ("-9223372036854775807", "1"),
-            ("6442450941/4294967296", "6442450943/4294967296"), ("4611686018427387904", "1/4611686018427387904")],
+            ("6442450941/4294967296", "6442450943/4294967296"), ("4611686018427387904", "1/4611686018427387904"),
+            // large denominators with a large common factor: b·d overflows, lcm(b, d) and the result do not
+            ("1/1099511627776", "1/2199023255552"), ("1/6000000000", "1/9000000000"), ("-3/2199023255552", "5/1099511627776"), ("7/3221225472", "1/6442450944")],
         "G64" | "E64" => vec![("3037000499,0", "3037000499,0"), ("0,3037000499", "0,3037000499"), ("2147483648,2147483647", "2147483647,-2147483648"),
             ("9223372036854775807,0", "0,1"), ("9223372036854775806,-9223372036854775807", "1,1"), ("4611686018427387904,4611686018427387903", "1,0"), ("1000000007,998244353", "998244353,-1000000007")],
         _ => vec![],
